@@ -22,8 +22,10 @@ META = {
     "level_text": (
         "Theorems in Coq 8.16: the sp3 parser's regenerated header/data column tables are well formed and equal to the "
         "SP3-c/d layout written from the format definition; parse o render = id for position records (all values that fit), "
-        "km->m, microsecond->metres of light, accuracy = base^code, sentinels -> NaN, epoch string, and the file-level fold "
-        "(any number of epochs/satellites, V/EP/EV lines ignored).  The model is tied to the code on every run by table "
+        "km->m, microsecond->metres of light, accuracy = base^code, sentinels -> NaN, epoch string, the header round trip "
+        "(rendered SP3-c/d header -> exactly the meta data), the whole-file fold with that header (any number of epochs/"
+        "satellites, V/EP/EV lines ignored, repeated epochs handled by midgard's drop rule stated exactly), and the Julian day "
+        "number of the Dataset epochs against C02's civil calendar for every year.  The model is tied to the code on every run by table "
         "regeneration (reflection on setup_parser) and by a correspondence check: rendered files are parsed by midgard and "
         "the specification is evaluated on the same text inside Coq (exact rationals vs. shipped doubles)."),
     "level_note": (
